@@ -582,6 +582,9 @@ func Enumerate(t *testing.T, name string, sharded bool, fn func(shard, shards in
 		}
 		n = 1
 	}
+	r.mu.Lock()
+	before := len(r.viol)
+	r.mu.Unlock()
 	err := func() (err error) {
 		defer func() {
 			if x := recover(); x != nil {
@@ -591,6 +594,14 @@ func Enumerate(t *testing.T, name string, sharded bool, fn func(shard, shards in
 		return fn(sh, n, r)
 	}()
 	if err != nil {
+		r.mu.Lock()
+		reported := len(r.viol) > before
+		r.mu.Unlock()
+		if !reported {
+			// an enumeration that fails must name its violation (otherwise the driver
+			// could only call the run inconclusive)
+			r.Violation("enum-"+name, map[string]string{"enumeration": name, "failure": err.Error()}, err.Error())
+		}
 		r.Exhaustive(name, false)
 		t.Errorf("%s: %v", name, err)
 		return
